@@ -709,7 +709,7 @@ def main():
     # concrete input is a violation (found by the BOUNDED stand-in, labelled so, with the input); no deviation leaves the
     # unit undecided - a bounded pass is never counted as a proof.
     for u, r in zip(units, results):
-        if not r["undecided"] or u["name"] not in replay_mod.SEARCHES or os.environ.get("VERIF_NO_REPLAY") or os.environ.get("VERIF_NO_STANDIN"):
+        if not r["undecided"] or u["name"] not in replay_mod.SEARCHES or os.environ.get("VERIF_NO_STANDIN"):
             continue
         if any(vu.get("name") == u["name"] for vu, _ob in violations):
             continue
